@@ -36,6 +36,9 @@ var (
 	outDir = envOr("VERIF_OUT", envOr("VERIF_DIR", "/verif"))
 )
 
+// stopCtx is cancelled once some harness instance has reported a finding.
+var stopCtx, stopAll = context.WithCancel(context.Background())
+
 func envOr(k, d string) string {
 	if v := os.Getenv(k); v != "" {
 		return v
@@ -374,6 +377,17 @@ func runProperty(prop, tier, only string, par int, hs []harness, pkgNames map[st
 	if len(mine) == 0 {
 		fatal("no harness for property %s", prop)
 	}
+	// every file of a harness directory is overlaid, so the helper directories
+	// any of its harnesses names ("with=") must be overlaid as well
+	for changed := true; changed; {
+		changed = false
+		for _, h := range hs {
+			if w := h.Opts["with"]; w != "" && dirs[h.Dir] && !dirs[w] {
+				dirs[w] = true
+				changed = true
+			}
+		}
+	}
 	var patterns []string
 	for d := range dirs {
 		patterns = append(patterns, "./"+pkgDirOf(d))
@@ -425,7 +439,7 @@ func runProperty(prop, tier, only string, par int, hs []harness, pkgNames map[st
 			split, _ := strconv.Atoi(opt(j.h, tier, "split", "0"))
 			cfg := symgo.HarnessCfg{Pkg: pkgPath(j.h), Func: j.h.Func, IntMode: opt(j.h, tier, "mode", "bv") == "int",
 				Solver: opt(j.h, tier, "solver", "z3"), Unwind: unwind, TimeoutMs: to, Params: j.params, Tier: tier,
-				MaxPaths: maxp, Deadline: time.Duration(dl) * time.Second, Label: j.label, Split: split}
+				MaxPaths: maxp, Deadline: time.Duration(dl) * time.Second, Label: j.label, Split: split, StopOnFinding: j.h.Witness == ""}
 			var ex *symgo.Explorer
 			var err error
 			if opt(j.h, tier, "engine", "symgo") == "gobmc" {
@@ -434,6 +448,11 @@ func runProperty(prop, tier, only string, par int, hs []harness, pkgNames map[st
 				ex, err = eng.Run(cfg)
 			}
 			results[k] = jobResult{job: j, ex: ex, err: err, wall: time.Since(tj)}
+			if ex != nil && len(ex.Findings) > 0 && j.h.Witness == "" {
+				// a violation decides the check: the other instances stop
+				atomic.StoreInt32(&eng.Stop, 1)
+				stopAll()
+			}
 		}(k)
 	}
 	wg.Wait()
@@ -484,7 +503,7 @@ func runProperty(prop, tier, only string, par int, hs []harness, pkgNames map[st
 			violations = append(violations, fmt.Sprintf("VIOLATION property=%s replay=%s harness=%s kind=%s msg=%q model=%s", prop, path, r.job.label, f.Kind, f.Msg, compactModel(f.Model)))
 		}
 		// vacuity: every harness must reach at least one obligation
-		if r.ex.Obligations == 0 && len(r.ex.Inconcl) == 0 {
+		if r.ex.Obligations == 0 && len(r.ex.Inconcl) == 0 && !r.ex.Abandoned && atomic.LoadInt32(&eng.Stop) == 0 {
 			inconcl = append(inconcl, fmt.Sprintf("%s: vacuous (no obligation reached)", r.job.label))
 		}
 	}
@@ -588,6 +607,28 @@ func replayFile(path string, hs []harness, pkgNames map[string]string) (bool, st
 	nat := filepath.Join(tmp, "native.go")
 	os.WriteFile(nat, tmpl("intrinsics_native.go.txt", pkgNames[dir], ""), 0o644)
 	repl[filepath.Join(pkgDir, "zz_verif_intrinsics.go")] = nat
+	// helper directories the harness directory depends on ("with="): their
+	// files and native intrinsics are overlaid into their own packages
+	extra := map[string]bool{}
+	for changed := true; changed; {
+		changed = false
+		for _, h := range hs {
+			if w := h.Opts["with"]; w != "" && (h.Dir == dir || extra[h.Dir]) && w != dir && !extra[w] {
+				extra[w] = true
+				changed = true
+			}
+		}
+	}
+	for w := range extra {
+		wdir := filepath.Join(repoDir, pkgDirOf(w))
+		wfiles, _ := filepath.Glob(filepath.Join(verifDir, "harness", w, "*.go"))
+		for _, f := range wfiles {
+			repl[filepath.Join(wdir, filepath.Base(f))] = f
+		}
+		wnat := filepath.Join(tmp, "native_"+w+".go")
+		os.WriteFile(wnat, tmpl("intrinsics_native.go.txt", pkgNames[w], ""), 0o644)
+		repl[filepath.Join(wdir, "zz_verif_intrinsics.go")] = wnat
+	}
 	drv := filepath.Join(tmp, "replay_test.go")
 	os.WriteFile(drv, tmpl("replay_test.go.txt", pkgNames[dir], hmap.String()), 0o644)
 	repl[filepath.Join(pkgDir, "zz_verif_replay_test.go")] = drv
@@ -656,7 +697,7 @@ func writeEvidence(prop, tier string, seed int, results []jobResult, eng *symgo.
 			"harness": r.job.label, "options": r.job.h.Opts, "paths": r.ex.Paths, "infeasible_paths": r.ex.PathsInfeas,
 			"decisions": r.ex.Decisions, "obligations": r.ex.Obligations, "discharged": r.ex.Discharged,
 			"trivially_true": r.ex.Trivial, "findings": len(r.ex.Findings), "reached": reached, "wall_s": r.wall.Seconds(),
-			"if_conversions": r.ex.Merges, "workers": r.ex.Workers,
+			"if_conversions": r.ex.Merges, "workers": r.ex.Workers, "abandoned_after_a_finding_elsewhere": r.ex.Abandoned,
 		})
 	}
 	if len(samples) == 0 {
@@ -860,7 +901,7 @@ func runBMC(eng *symgo.Engine, cfg symgo.HarnessCfg, j job, tier string) (*symgo
 	}
 	out := make([]qr, len(queries))
 	var wg sync.WaitGroup
-	ctx, cancelAll := context.WithCancel(context.Background())
+	ctx, cancelAll := context.WithCancel(stopCtx)
 	defer cancelAll()
 	var violated int32
 	for qi, q := range queries {
@@ -878,7 +919,8 @@ func runBMC(eng *symgo.Engine, cfg symgo.HarnessCfg, j job, tier string) (*symgo
 	}
 	wg.Wait()
 	for _, o := range out {
-		if o.r == "unknown" && atomic.LoadInt32(&violated) == 1 {
+		if o.r == "unknown" && (atomic.LoadInt32(&violated) == 1 || stopCtx.Err() != nil) {
+			ex.Abandoned = stopCtx.Err() != nil && atomic.LoadInt32(&violated) == 0
 			continue // abandoned after a violation was found
 		}
 		ex.Obligations++
